@@ -1,7 +1,11 @@
 package main
 
-// decgen: translate the DecodeFromBytes methods of pkg/ipmi and pkg/dcmi (and the helpers they call) from the Go
-// source (go/ast + go/types) into Lean 4 definitions over the Go-slice semantics of Bmc/Basic/Go.lean.
+// decgen: translate the DecodeFromBytes methods of pkg/ipmi and pkg/dcmi (and the helpers they call), and the further
+// byte parsers listed in extraFuncs (parseCipherSuiteRecordData), from the Go source (go/ast + go/types) into Lean 4
+// definitions over the Go-slice semantics of Bmc/Basic/Go.lean. The statement language is described in DESIGN.md §2.2
+// (T2b); expr.go / stmt.go / control.go / call.go hold the original language, ext.go / loops.go its extensions (signed
+// narrow integers, read-only package-level tables, closed sums for interface values, functions returning (…, error),
+// local structures, loops with fuel in the monad RF, external calls as parameters).
 //
 // usage: decgen <repo-dir> > lean/Bmc/Gen/Dec.lean
 //
@@ -11,6 +15,7 @@ package main
 import (
 	"fmt"
 	"go/ast"
+	"go/token"
 	"go/types"
 	"os"
 	"sort"
@@ -36,6 +41,17 @@ type gen struct {
 	defs       map[string]string                // Lean def name -> text (callees, pure helpers)
 	defOrder   []string
 	inProgress map[string]bool
+	funcInfos  map[string]*funcInfo       // functions returning (values…, error), by Lean name
+	defMonad   map[string]string          // Lean def name of a method of the receiver -> "R" / "RF"
+	maps       map[*types.Var]*mapInfo    // package-level map literals used as finite functions
+	enums      map[*types.Named]*enumInfo // closed sums
+	paramDocs  []string                   // comments about the parameters of top-level definitions
+
+	// constant over the run
+	modPkgs    []*packages.Package   // the packages of the module that were loaded
+	varInits   map[*types.Var]varSrc // initialiser of every package-level variable of the module
+	roCache    map[*types.Var]string
+	blockSizes map[*types.Var]int
 }
 
 func (g *gen) reset() {
@@ -44,6 +60,11 @@ func (g *gen) reset() {
 	g.defs = map[string]string{}
 	g.defOrder = nil
 	g.inProgress = map[string]bool{}
+	g.funcInfos = map[string]*funcInfo{}
+	g.defMonad = map[string]string{}
+	g.maps = map[*types.Var]*mapInfo{}
+	g.enums = map[*types.Named]*enumInfo{}
+	g.paramDocs = nil
 }
 
 func (g *gen) useField(t *types.Named, field string) {
@@ -63,9 +84,20 @@ type layer struct {
 	typ      *types.Named
 	fn       *types.Func
 	src      funcSrc
+	extra    bool // a top-level function that is not a DecodeFromBytes method
 }
 
-func (l layer) name() string { return l.pkgShort + "." + l.typ.Obj().Name() }
+func (l layer) name() string {
+	if l.extra {
+		return l.pkgShort + "." + l.fn.Name()
+	}
+	return l.pkgShort + "." + l.typ.Obj().Name()
+}
+
+// extraFuncs: byte parsers that are not DecodeFromBytes methods (package path, function name)
+var extraFuncs = [][2]string{
+	{"github.com/gebn/bmc", "parseCipherSuiteRecordData"},
+}
 
 func main() {
 	dir := "/repo"
@@ -73,16 +105,17 @@ func main() {
 		dir = os.Args[1]
 	}
 	cfg := &packages.Config{Mode: packages.LoadAllSyntax, Dir: dir, Env: append(os.Environ(), "GOFLAGS=-mod=mod", "GOPROXY=off")}
-	pkgs, err := packages.Load(cfg, "./pkg/ipmi", "./pkg/dcmi")
+	pkgs, err := packages.Load(cfg, ".", "./pkg/ipmi", "./pkg/dcmi")
 	if err != nil || packages.PrintErrors(pkgs) > 0 {
 		fmt.Fprintln(os.Stderr, "decgen: cannot load packages", err)
 		os.Exit(2)
 	}
-	g := &gen{funcs: map[*types.Func]funcSrc{}}
+	g := &gen{funcs: map[*types.Func]funcSrc{}, varInits: map[*types.Var]varSrc{}, roCache: map[*types.Var]string{}, blockSizes: map[*types.Var]int{}}
 	packages.Visit(pkgs, nil, func(p *packages.Package) {
 		if !strings.HasPrefix(p.PkgPath, "github.com/gebn/bmc") {
 			return
 		}
+		g.modPkgs = append(g.modPkgs, p)
 		for _, f := range p.Syntax {
 			for _, d := range f.Decls {
 				if fd, ok := d.(*ast.FuncDecl); ok && fd.Body != nil {
@@ -90,9 +123,23 @@ func main() {
 						g.funcs[obj] = funcSrc{fd, p}
 					}
 				}
+				if gd, ok := d.(*ast.GenDecl); ok && gd.Tok == token.VAR {
+					for _, sp := range gd.Specs {
+						vs := sp.(*ast.ValueSpec)
+						if len(vs.Values) != len(vs.Names) {
+							continue
+						}
+						for i, id := range vs.Names {
+							if obj, ok := p.TypesInfo.Defs[id].(*types.Var); ok {
+								g.varInits[obj] = varSrc{vs.Values[i], p}
+							}
+						}
+					}
+				}
 			}
 		}
 	})
+	sort.Slice(g.modPkgs, func(i, j int) bool { return g.modPkgs[i].PkgPath < g.modPkgs[j].PkgPath })
 
 	// the layers: every `func (x *T) DecodeFromBytes(data []byte, df gopacket.DecodeFeedback) error`
 	var layers []layer
@@ -116,7 +163,20 @@ func main() {
 		if !ok {
 			continue
 		}
-		layers = append(layers, layer{path[strings.LastIndex(path, "/")+1:], named, fn, src})
+		layers = append(layers, layer{path[strings.LastIndex(path, "/")+1:], named, fn, src, false})
+	}
+	for _, ef := range extraFuncs {
+		found := false
+		for fn, src := range g.funcs {
+			if fn.Pkg().Path() == ef[0] && fn.Name() == ef[1] && fn.Type().(*types.Signature).Recv() == nil {
+				layers = append(layers, layer{fn.Pkg().Name(), nil, fn, src, true})
+				found = true
+			}
+		}
+		if !found {
+			fmt.Fprintf(os.Stderr, "decgen: function %s.%s not found\n", ef[0], ef[1])
+			os.Exit(2)
+		}
 	}
 	sort.Slice(layers, func(i, j int) bool { return layers[i].name() < layers[j].name() })
 
@@ -146,7 +206,9 @@ func main() {
 			fmt.Fprintln(os.Stderr, "decgen: internal: second round failed for", l.name(), reason)
 			os.Exit(2)
 		}
-		bodies = append(bodies, text)
+		if text != "" {
+			bodies = append(bodies, text)
+		}
 		translated = append(translated, l.name())
 	}
 
@@ -154,6 +216,10 @@ func main() {
 	out.WriteString("-- GENERATED by decgen from the Go sources; do not edit.\n")
 	out.WriteString("-- Go `int`/`int64` arithmetic is translated into ℤ / ℕ (no wrap-around at 2^63); unsigned fixed-width\n")
 	out.WriteString("-- arithmetic into UInt8/UInt16/UInt32 (wrapping like Go); shift counts are constants below the width.\n")
+	out.WriteString("-- Signed int8/int16/int32 are Lean's Int8/Int16/Int32 (two's complement, same conversions); a shift by a variable\n")
+	out.WriteString("-- count goes through GoDec.shl*/shr* (0 at or above the width). Definitions in the monad RF contain a loop run\n")
+	out.WriteString("-- with FUEL (GoDec.loopM); RF.outOfFuel is a distinguished outcome. `int(math.Ceil/Floor(float64(e)/2^k))` is the\n")
+	out.WriteString("-- exact ceiling/floor division (|e| < 2^53).\n")
 	out.WriteString("import Bmc.Basic.GoDec\nnamespace Bmc.Gen.Dec\nopen Bmc Bmc.GoDec\n\n")
 	for _, c := range comments {
 		out.WriteString(c + "\n")
@@ -182,7 +248,7 @@ func quoteJoin(l []string) string {
 	return strings.Join(q, ", ")
 }
 
-// translateLayer returns the Lean text of `T.decodeGo`, or the reason for giving up
+// translateLayer returns the Lean text of `T.decodeGo` (or of an extra top-level function), or the reason for giving up
 func (g *gen) translateLayer(l layer) (text string, reason string) {
 	defer func() {
 		if r := recover(); r != nil {
@@ -193,20 +259,36 @@ func (g *gen) translateLayer(l layer) (text string, reason string) {
 			panic(r)
 		}
 	}()
+	if l.extra {
+		d := g.newFn(l.src, nil)
+		g.monadicFunc(d, l.src.decl, l.fn)
+		return "", ""
+	}
 	g.useField(l.typ, "")
-	f := g.newFn(l.src, l.typ)
 	name := leanTypeName(l.typ) + ".decodeGo"
 	pos := l.src.pkg.Fset.Position(l.src.decl.Pos())
+	var f *fn
+	var dataName []string
+	withFuelRetry(func(fuel bool) {
+		f = g.newFn(l.src, l.typ)
+		f.fuel = fuel
+		f.params = &extParams{}
+		dataName = f.bindParams(l.src.decl.Type.Params.List)
+		if len(dataName) != 1 {
+			panic(giveUp{"unexpected parameter list"})
+		}
+		f.results = nil
+		f.block(l.src.decl.Body.List, 1, nil)
+	})
 	var b strings.Builder
-	fmt.Fprintf(&b, "/-- translated from `(*%s.%s).DecodeFromBytes` (%s) -/\n", l.pkgShort, l.typ.Obj().Name(), shortFile(pos.Filename))
-	params := l.src.decl.Type.Params.List
-	dataName := f.bindParams(params)
-	if len(dataName) != 1 {
-		panic(giveUp{"unexpected parameter list"})
+	fmt.Fprintf(&b, "/-- translated from `(*%s.%s).DecodeFromBytes` (%s)", l.pkgShort, l.typ.Obj().Name(), shortFile(pos.Filename))
+	var ps string
+	for _, p := range f.params.list {
+		fmt.Fprintf(&b, "\n    PARAMETER `%s`: %s", p.name, p.doc)
+		ps += fmt.Sprintf("(%s : %s) ", p.name, p.typ)
 	}
-	fmt.Fprintf(&b, "def %s (prev : %s) (%s : GoSlice) : R %s := do\n  let r := prev\n", name, leanTypeName(l.typ), dataName[0], leanTypeName(l.typ))
-	f.results = nil
-	f.block(l.src.decl.Body.List, 1, nil)
+	b.WriteString(" -/\n")
+	fmt.Fprintf(&b, "def %s %s(prev : %s) (%s : GoSlice) : %s %s := do\n  let r := prev\n", name, ps, leanTypeName(l.typ), dataName[0], f.M(), leanTypeName(l.typ))
 	b.WriteString(strings.Join(f.lines, "\n"))
 	b.WriteString("\n")
 	return b.String(), ""
@@ -273,6 +355,12 @@ func (g *gen) fieldType(t types.Type) (string, string, bool) {
 			return "Bool", "false", true
 		case types.Int, types.Int64:
 			return "Int", "0", true
+		case types.Int8:
+			return "Int8", "0", true
+		case types.Int16:
+			return "Int16", "0", true
+		case types.Int32:
+			return "Int32", "0", true
 		case types.String:
 			return "Bytes", "[]", true
 		}
@@ -297,6 +385,12 @@ func (g *gen) fieldType(t types.Type) (string, string, bool) {
 
 func isByte(t types.Type) bool {
 	b, ok := t.Underlying().(*types.Basic)
+	return ok && b.Kind() == types.Uint8
+}
+
+// isPlainByte: t is byte / uint8 itself (a slice of it is a Go []byte; a slice of a NAMED uint8 type is a list of values)
+func isPlainByte(t types.Type) bool {
+	b, ok := types.Unalias(t).(*types.Basic)
 	return ok && b.Kind() == types.Uint8
 }
 
